@@ -196,6 +196,12 @@ def exec_adaptive(sc):
             if cfg["calib"] == "dynamic" and zero_scale:
                 v["finding"] = "KF-C01-dynamic-zero-residual"
                 v["inv"] = "TOL-finite-dynamic-zero-residual"
+            elif bool(ratios) and min(ratios) < TINY and (cfg["lin"] == "ts0" or cfg["strategy"] != "filter"):
+                # the tiny-step finding in its extreme form: after an accepted step 1e-7 of its predecessor (clipped
+                # remainder in front of a checkpoint) the run degrades until it overflows (q = 6 observed)
+                v["finding"] = "KF-C01-tiny-step"
+                v["inv"] = "TOL-finite-tiny-step"
+                v["msg"] += f" after an accepted step {min(ratios):.1e} of its predecessor"
             viol.append(v)
             break
         if ratio > (K_TOL if cfg["order"] == 1 else K_TOL_SECOND_ORDER):
@@ -208,6 +214,17 @@ def exec_adaptive(sc):
             if (cfg["lin"] == "ts0" and tiny_before) or (cfg["strategy"] != "filter" and tiny_any):
                 v["finding"] = "KF-C01-tiny-step"
                 v["inv"] = "TOL-tiny-step"
+            else:
+                # finding predicate: a solution component that has shrunk towards zero at the requested time while
+                # atol << rtol |u| along the way: every step was controlled relative to the then-current |u|, so the
+                # accumulated error is a modest multiple of atol + rtol max_{s<=t}|u(s)|, not of atol + rtol |u(t)|
+                grid_s = onp.linspace(0.0, float(t), 33)
+                upath = onp.max(onp.abs(onp.array([exact_at(wm, s_) for s_ in grid_s])), axis=0)
+                ratio_path = float(onp.max(onp.abs(mean0[i] - u) / (sc["atol"] + sc["rtol"] * upath)))
+                if ratio_path <= (K_TOL if cfg["order"] == 1 else K_TOL_SECOND_ORDER) and onp.any(upath > 2.0 * onp.abs(u)):
+                    v["finding"] = "KF-C01-relative-tolerance-shrinking-component"
+                    v["inv"] = "TOL-shrinking-component"
+                    v["msg"] += f"; {ratio_path:.1f} x (atol + rtol max|u| along the path)"
             viol.append(v)
             break
     stats["worst_ratio"] = worst
